@@ -8,7 +8,7 @@
    file-system effect or internal event, incl. registry faults - any interleaving),
    [Crash p] (process p is killed - at any point; its flock is released).
    [env_ok c]: the protocol as written (no variant flag) and no local I/O errors. *)
-From Verif Require Import Cache.Model Cache.Inv Cache.Safety Cache.Recovery Cache.Variants Cache.Examples Cache.Proofs.
+From Verif Require Import Cache.Model Cache.Inv Cache.Safety Cache.Recovery Cache.SingleFlight Cache.Variants Cache.Examples Cache.Proofs.
 From Coq Require Import List.
 Import ListNotations.
 
@@ -98,6 +98,13 @@ Theorem C16_recovery : forall c w p, env_ok c -> reachable c w -> quiescent w ->
     complete c (st w') /\ reachable c w'.
 Proof. exact recovery. Qed.
 Print Assumptions C16_recovery.
+
+(* One download per version and process (par.ErrCache.Do in downloadZip): in every reachable
+   world - any number of goroutines, any interleaving, faults, for every configuration - a
+   process has created at most one temp file / issued at most one GetZip for the version. *)
+Theorem C16_single_flight : forall c w p, reachable c w -> gz (ps w p) <= 1.
+Proof. exact single_flight. Qed.
+Print Assumptions C16_single_flight.
 
 (* Which orderings the proof relies on: each variant has a reachable state in which a
    call has returned success while the directory is not the complete content. *)
